@@ -159,3 +159,11 @@ Definition check_case (c : tcase) : bool :=
   let fs := c_faces c in
   Bool.eqb (rejected nv fs) (o_rejected c) && (n_edges fs =? o_ne c)%Z &&
   (if o_rejected c then true else check_ok c).
+
+(* one checked unit = how the caller wrote the optional keyword custom_boundary (present / given as None) + the case:
+   the mode the generated constructor logic selects must be the mode the case was run in (a usable custom boundary
+   is handed over iff the case is a custom-mode case) *)
+Definition check_unit (u : bool * bool * tcase) : bool :=
+  let '(present, given_none, c) := u in
+  Bool.eqb (ctor_mode_custom present given_none) (match c_mode c with MCustom => true | _ => false end) &&
+  check_case c.
